@@ -126,10 +126,13 @@ def c_from_residual(eng, st, fr, f, args, site):
             continue
         val = fs[0]
         src_ty = None
+        ra = [a for a in (f.get("resolved_args") or ()) if isinstance(a, int)]
         fa = [a for a in f["args"] if isinstance(a, int)]
-        # generic args of from_residual: [T, F, E]  (Result<T,F> as FromResidual<Result<Infallible,E>>)
-        if len(fa) >= 3:
-            src_ty = fa[2]
+        # impl args of from_residual: [T, F, E]  (Result<T,F> as FromResidual<Result<Infallible,E>>)
+        if len(ra) >= 3:
+            src_ty = ra[2]
+        elif len(fa) >= 2:
+            src_ty = variant_payload_ty(eng, fa[1], 1)
         if src_ty is None:
             outs.append((st, Enum(rt, ((1, (Top(et, "err#%d" % eng._hv()),)),), "res")))
             continue
